@@ -10,10 +10,14 @@ def _unescape(s):
 
 
 def parse_witnesses(text, limit=None, rng=None):
-    """all witness lines, or a seeded sample of `limit` of them (sampled BEFORE the JSON is decoded)"""
-    raw = [m.group(1) for m in _W.finditer(text)]
-    total = len(raw)
-    if limit is not None and total > limit:
+    """all witness lines, or a seeded sample of `limit` of them (sampled BEFORE the JSON is decoded);
+    `text` is TLC output or a TLCResult of tlc.run_tlc (which has sampled the witness lines while streaming)"""
+    if hasattr(text, 'witness_raw'):
+        raw, total = text.witness_raw, text.witness_total
+    else:
+        raw = [m.group(1) for m in _W.finditer(text)]
+        total = len(raw)
+    if limit is not None and len(raw) > limit:
         raw = rng.sample(raw, limit)
     out, bad = [], 0
     for r in raw:
